@@ -276,12 +276,15 @@ def compare(model, dump, where):
     return viol
 
 
-def required_hooks(before, after):
-    """(type, path-string) of every hook the statement demands."""
+def required_hooks(before, after, hooked=()):
+    """(type, path-string) of every hook the statement demands.  `hooked`: paths of nodes that were given a hook
+    directly (HOOKALL) although no code registered them; they count while both files have them."""
     need = []
     for p in sorted(set(before) | set(after), key=str):
         b, a = before.get(p), after.get(p)
-        if a is None or b is None or not a[0] or not b[0]:
+        if a is None or b is None:
+            continue
+        if not (a[0] and b[0]) and p not in hooked:
             continue
         ty = p[-1][1]
         if ty == OBJ:
@@ -444,6 +447,10 @@ class ConfProfile:
                 p_dmg *= 0.5
         if rnd.random() < 0.3:
             steps.insert(rnd.randrange(1, len(steps) + 1), {"op": "load", "tree": copy.deepcopy(trees[0]), "layout": rnd.randrange(1 << 30)})
+        if rnd.random() < 0.3:
+            # from here on every node of the live tree carries a change hook, installed directly on the node as
+            # src/log.c and the decision modules do for the entries of their sections
+            steps.insert(rnd.randrange(1, len(steps) + 1), {"op": "hookall"})
         # registrations after the k-th step
         plan = {"profile": "conf", "prop": prop, "regs": regs, "steps": steps}
         if opts.get("every_cut") and tier == "thorough" and rnd.random() < 0.2:
@@ -504,6 +511,7 @@ class ConfProfile:
                 for rule, msg in compare(model, d, where):
                     viol.append(Violation(("C15",), rule, msg))
             dumpcmp("after the initial load")
+            hooked = set()
             started = False
             nstep = 0
             for s in steps:
@@ -535,7 +543,8 @@ class ConfProfile:
                                 viol.append(Violation(("C15",), "identical-notifies", "loading identical content notified %s" % sorted(hooks)))
                         if before is not None:
                             after = model.expected()
-                            need = required_hooks(before, after)
+                            need = required_hooks(before, after, hooked)
+                            hooked &= set(after)        # an unregistered node the file drops is gone, and its hook with it
                             res.extra["hooks_required"] += len(need)
                             res.extra["value_changes_seen"] += int(bool(need))
                             for p, why in need:
@@ -544,6 +553,12 @@ class ConfProfile:
                                     viol.append(Violation(("C15",), "hook-missing", "registered %s %s changed (%s) but its hook did not run; hooks run: %s" %
                                                           ("object" if p[-1][1] == OBJ else "setting", "/".join(k[0] for k in p), why, sorted(hooks))))
                         dumpcmp("after load %d" % nstep)
+                    elif s["op"] == "hookall":
+                        h.hookall()
+                        if model.file is not None:
+                            hooked |= set(model.expected())
+                        res.extra["hook_all_nodes"] = 1
+                        res.transcript.append(("hookall", {}, []))
                     elif s["op"] == "damage":
                         d = s["d"]
                         cuts = [None]
@@ -588,6 +603,7 @@ class ConfProfile:
                             else:
                                 res.extra["damaged_accepted"] += 1
                                 model.file = None       # by accident a valid file: re-synchronise at the next good load
+                                hooked.clear()          # (which directly hooked nodes survived it is not known either)
                             if viol:
                                 break
                 # late registrations due after this step
